@@ -19,7 +19,10 @@ CONTENT_TYPES = [('nat',), ('string',), ('unit',), ('pair', ('nat',), ('string',
                  # unions whose two branches hold the same payload type: `Left v` and `Right v` are different contents
                  ('or', ('nat',), ('nat',)), ('or', ('unit',), ('unit',)), ('pair', ('or', ('string',), ('string',)), ('nat',)),
                  # an option directly inside an option: `None` and `Some None` are different contents
-                 ('option', ('option', ('nat',))), ('pair', ('nat',), ('option', ('option', ('bool',))))]
+                 ('option', ('option', ('nat',))), ('pair', ('nat',), ('option', ('option', ('bool',)))),
+                 # a pair whose LEFT component is a pair (not a right comb): contents that differ only after the nested pair
+                 ('pair', ('pair', ('bool',), ('unit',)), ('bool',)), ('pair', ('nat',), ('pair', ('pair', ('unit',), ('bool',)), ('string',))),
+                 ('option', ('pair', ('pair', ('unit',), ('unit',)), ('nat',)))]
 
 
 # ---------------------------------------------------------------------------------------------- printers
